@@ -242,7 +242,21 @@ func VH_C15_GroupRun(firstJoin, event int) {
 	}
 	cfg := ConsumerGroupConfig{ID: "g", Brokers: []string{"vh:9092"}, Topics: []string{"t"}, HeartbeatInterval: time.Second,
 		JoinGroupBackoff: 5 * time.Second, StartOffset: FirstOffset}
-	cfg.connect = func(*Dialer, ...string) (coordinator, error) { return co, nil }
+	opened := 0
+	cfg.connect = func(*Dialer, ...string) (coordinator, error) { opened++; return co, nil }
+	if firstJoin >= 4 {
+		// the first coordinator lookup fails (4: error code, 5: transport error): reported by Next, retried after
+		// the back-off, and the bootstrap connection is closed all the same
+		co.findOutcome = func(call int) (int16, error) {
+			if call == 1 {
+				if firstJoin == 4 {
+					return int16(GroupCoordinatorNotAvailable), nil
+				}
+				return 0, vhErrCoordinator
+			}
+			return 0, nil
+		}
+	}
 	cg, nerr := NewConsumerGroup(cfg)
 	vhAssert(nerr == nil, "group-created")
 	ctx := context.Background()
@@ -257,9 +271,17 @@ func VH_C15_GroupRun(firstJoin, event int) {
 			vhAssert(errors.Is(err, Error(code)), "join-error-is-the-coordinators")
 		case 3:
 			vhAssert(errors.Is(err, vhErrCoordinator), "join-error-is-the-transports")
+		case 4:
+			vhAssert(errors.Is(err, GroupCoordinatorNotAvailable), "lookup-error-is-the-coordinators")
+		case 5:
+			vhAssert(errors.Is(err, vhErrCoordinator), "lookup-error-is-the-transports")
 		}
 		vhSettle()
-		if firstJoin != 1 {
+		if firstJoin >= 4 {
+			vhAssert(co.joins == 0 && co.finds == 1, "failed-lookup-is-not-retried-before-the-back-off")
+			vhAssert(opened == co.closes, "connection-of-a-failed-lookup-is-closed")
+			vhAssert(vhTimers() > 0, "back-off-timer-armed")
+		} else if firstJoin != 1 {
 			vhAssert(co.joins == 1, "failed-join-is-not-retried-before-the-back-off")
 			vhAssert(vhTimers() > 0, "back-off-timer-armed")
 		}
@@ -337,8 +359,11 @@ func VH_C15_GroupRun(firstJoin, event int) {
 			vhAssert(vhAll(g2.ID == gen2, g2.MemberID == "m1"), "second-generation-identity")
 		}
 		vhAssert(len(co.joinMembers) >= 2 && co.joinMembers[len(co.joinMembers)-1] == "m1", "member-id-is-kept-across-generations")
-		go func() { cg.Close() }()
-		vhSettle()
+		closed2 := make(chan struct{})
+		go func() { cg.Close(); close(closed2) }()
+		<-closed2
 	}
+	vhSettle()
+	vhAssert(opened == co.closes, "every-coordinator-connection-opened-is-closed-once-the-group-is-closed")
 	vhReach("c15-group-run")
 }
